@@ -17,6 +17,7 @@ import Driver.PyzxCmd
 import Driver.LayoutCmd
 import Driver.ParamCmd
 import Driver.GatesCmd
+import Driver.GrammarCmd
 
 def handlers : List (String → List String → Option String) :=
   [ DV.CoreCmd.handle
@@ -30,6 +31,7 @@ def handlers : List (String → List String → Option String) :=
   , DV.LayoutCmd.handle
   , DV.ParamCmd.handle
   , DV.GatesCmd.handle
+  , DV.GrammarCmd.handle
   ]
 
 def handle (line : String) : String :=
